@@ -347,7 +347,7 @@ func pickGroup(t *rapid.T, filter func(*GroupInfo) bool) *GroupInfo {
 			gs = append(gs, g)
 		}
 	}
-	return gs[rapid.IntRange(0, len(gs)-1).Draw(t, "group")]
+	return gs[uniformInt(t, 0, len(gs)-1, "group")]
 }
 
 func isUnit(v, q *big.Int) bool {
